@@ -39,11 +39,11 @@ type scriptSource struct {
 }
 
 // a single model operation never needs more draws than this; beyond it the code under test is spinning
-const maxDrawsPerOp = 200000
+const maxDrawsPerOp = 20000
 
 func (s *scriptSource) Int63() int64 {
 	if len(s.log) > maxDrawsPerOp {
-		panic("scripted random source: more than 200000 draws in one operation (the operation spins)")
+		panic("scripted random source: more than 20000 draws in one operation (the operation spins)")
 	}
 	v := s.next()
 	s.log = append(s.log, v)
